@@ -218,6 +218,10 @@ type FSObjectIterator struct {
 }
 
 func (it *FSObjectIterator) Next() (name string, err error) {
+	if it.err != nil {
+		// The walk that collected the names failed: the listing is incomplete.
+		return "", it.err
+	}
 	if it.index >= len(it.names) {
 		return "", ErrObjectIteratorDone
 	}
